@@ -2063,6 +2063,11 @@ def value_attr(it, v, a, n):
         return Bound(v, Native(lambda it_, args, kw, node, _a=a: val_method(it_, args[0], _a, args[1:], kw, node), 'val.' + a))
     if isinstance(v, K) and not hasattr(v.v, a):
         raise RaiseEx('AttributeError', f'{type(v.v).__name__} object has no attribute {a}', n)
+    # a value whose Python type is known has exactly the attributes of that type: anything else is an AttributeError of the code
+    pyt = (tuple if v.tup else list) if isinstance(v, ListV) else dict if isinstance(v, DictV) else set if isinstance(v, SetV) else int if isinstance(v, PInt) else None
+    if pyt is not None and not hasattr(pyt, a) and not (isinstance(v, DictV) and a in ('default_factory', 'move_to_end', 'popitem', 'most_common', 'elements', 'subtract', 'total')) \
+            and not (isinstance(v, ListV) and a in ('appendleft', 'popleft', 'extendleft', 'rotate', 'maxlen', '_asdict', '_replace', '_fields', '_make')):
+        raise RaiseEx('AttributeError', f'{pyt.__name__} object has no attribute {a}', n)
     if isinstance(v, (K, PBits, ListV, DictV, SetV, Sym, Term, PInt, ExcV, Cond)):
         return Bound(v, Native(lambda it_, args, kw, node, _a=a: val_method(it_, args[0], _a, args[1:], kw, node), 'val.' + a))
     return None
